@@ -28,6 +28,17 @@ func (p *Path) newToken(typ types.Type, val Value) []*Term {
 	if n <= 0 {
 		n = 3
 	}
+	if p.lzwSizes {
+		// size-aware model: the encoding of a compress{Algo, Buf} wrapper is as long as its payload plus the
+		// msgpack framing (map header, two field names, one byte, bin header: 14..15 bytes)
+		if nt, ok := typ.(*types.Named); ok && nt.Obj().Name() == "compress" {
+			if sv, ok := val.(StructVal); ok && len(sv) == 2 {
+				if b, ok := sv[1].(SliceVal); ok {
+					n = b.N + 15
+				}
+			}
+		}
+	}
 	p.tokSeq++
 	ts := make([]*Term, n)
 	for i := range ts {
